@@ -31,11 +31,11 @@ package testdirectory
 //@   ensures  !held(&d.mu) && !held(w.writerMu)
 //@   panics false
 //@   modifies all(ber.Packet), cell(*ber.Packet), G_bufdata, G_pktnew, G_held, G_acq, G_nframes, G_npend, G_werr, G_pendstr, G_flushed, G_lastok, G_lasttag, G_lastcode, G_lastid
-//@   tags C19
+//@   tags C19 C15
 //@ loop 1
 //@   invariant forall(i, 0, rangeindex + 1, !(d.users[i].DN == m.UserName && firstPw(d.users[i], string(m.Password))))
 //@   invariant resp != nil && resp.baseResponse != nil && resp.code == gldap.ResultInvalidCredentials && resp.messageID == msgID(r.message) && len(resp.controls) == 0
-//@   invariant !held(&d.mu) && !held(w.writerMu)
+//@   invariant held(&d.mu)
 //@   modifies nothing
 
 // ---- C20 ---------------------------------------------------------------------------------
@@ -91,7 +91,7 @@ package testdirectory
 //@   ensures  ctlsOK(d.controls) && listsApart(d) && !held(&d.mu) && !held(w.writerMu)
 //@   panics false
 //@   modifies Directory.users, cell(*gldap.Entry), all(ber.Packet), cell(*ber.Packet), G_bufdata, G_pktnew, G_held, G_acq, G_nframes, G_npend, G_werr, G_pendstr, G_flushed, G_lastok, G_lasttag, G_lastcode, G_lastid
-//@   tags C20
+//@   tags C20 C15
 
 //@ pure delMsg(r *gldap.Request) *gldap.DeleteMessage = r.message.(*gldap.DeleteMessage)
 //@ pure uMatch(d *Directory, dn string, i int) bool = dnMatch(sprintf("(%s)", dn), d.users[i].DN)
@@ -119,7 +119,7 @@ package testdirectory
 //@   ensures  ctlsOK(d.controls) && listsApart(d) && !held(&d.mu) && !held(w.writerMu)
 //@   panics false
 //@   modifies Directory.users, Directory.groups, cell(*gldap.Entry), all(ber.Packet), cell(*ber.Packet), G_bufdata, G_pktnew, G_held, G_acq, G_nframes, G_npend, G_werr, G_pendstr, G_flushed, G_lastok, G_lasttag, G_lastcode, G_lastid
-//@   tags C20
+//@   tags C20 C15
 
 // handleModify: the statement's "add-value, delete-attribute and replace
 // modifications of user entries are reflected in later searches" is stated for
@@ -151,7 +151,7 @@ package testdirectory
 //@   ensures  !held(&d.mu) && !held(w.writerMu)
 //@   panics false
 //@   modifies gldap.Entry.Attributes, cell(*gldap.EntryAttribute), gldap.EntryAttribute.Values, gldap.EntryAttribute.ByteValues, cell(string), cell([]byte), all(ber.Packet), cell(*ber.Packet), G_bufdata, G_pktnew, G_held, G_acq, G_nframes, G_npend, G_werr, G_pendstr, G_flushed, G_lastok, G_lasttag, G_lastcode, G_lastid
-//@   tags C20
+//@   tags C20 C15
 //@ loop 1
 //@   invariant rangeindex__1 == -1 ==> attrsSame(e)
 //@   invariant e != nil && attrsNonNil(e)
@@ -224,3 +224,100 @@ package testdirectory
 //@   panics false
 //@ extern math/big.NewInt
 //@   panics false
+
+// ---- C15 ---------------------------------------------------------------------------------
+// Lockset discipline: the directory's shared state may be read or written only
+// with d.mu held (or before the directory is published by Start).
+//@ protect testdirectory.Directory.users by mu
+//@ protect testdirectory.Directory.groups by mu
+//@ protect testdirectory.Directory.controls by mu
+//@ protect testdirectory.Directory.allowAnonymousBind by mu
+//@ protect testdirectory.Directory.tokenGroups by mu
+//@ func (*testdirectory.Directory).Users
+//@   requires d != nil && !held(&d.mu)
+//@   ensures  !held(&d.mu)
+//@   panics false
+//@   tags C15
+//@ func (*testdirectory.Directory).Groups
+//@   requires d != nil && !held(&d.mu)
+//@   ensures  !held(&d.mu)
+//@   panics false
+//@   tags C15
+//@ func (*testdirectory.Directory).Controls
+//@   requires d != nil && !held(&d.mu)
+//@   ensures  !held(&d.mu)
+//@   panics false
+//@   tags C15
+//@ func (*testdirectory.Directory).TokenGroups
+//@   requires d != nil && !held(&d.mu)
+//@   ensures  !held(&d.mu)
+//@   panics false
+//@   tags C15
+//@ func (*testdirectory.Directory).AllowAnonymousBind
+//@   requires d != nil && !held(&d.mu)
+//@   ensures  !held(&d.mu)
+//@   panics false
+//@   tags C15
+//@ func (*testdirectory.Directory).SetUsers
+//@   requires d != nil && !held(&d.mu)
+//@   ensures  !held(&d.mu)
+//@   panics false
+//@   tags C15
+//@ func (*testdirectory.Directory).SetGroups
+//@   requires d != nil && !held(&d.mu)
+//@   ensures  !held(&d.mu)
+//@   panics false
+//@   tags C15
+//@ func (*testdirectory.Directory).SetControls
+//@   requires d != nil && !held(&d.mu)
+//@   ensures  !held(&d.mu)
+//@   panics false
+//@   tags C15
+//@ func (*testdirectory.Directory).SetTokenGroups
+//@   requires d != nil && !held(&d.mu)
+//@   ensures  !held(&d.mu)
+//@   panics false
+//@   tags C15
+//@ func (*testdirectory.Directory).SetAllowAnonymousBind
+//@   requires d != nil && !held(&d.mu)
+//@   ensures  !held(&d.mu)
+//@   panics false
+//@   tags C15
+//@ pure muQuiet(d *Directory) bool = forallref(W, *bufio.Writer, G_guard[W] == &d.mu ==> (G_npend[W] == 0 && G_pendstr[W] == "") || G_werr[W])
+// the search handlers: lock obligations only (their functional behaviour is not under contract)
+//@ func (*testdirectory.Directory).handleSearchUsers$1
+//@   requires hOK(w, r) && dirOK(d) && !held(&d.mu)
+//@   panics any
+//@   tags C15
+//@ loop 1
+//@   invariant held(&d.mu) && muQuiet(d)
+//@ loop 2
+//@   invariant held(&d.mu) && muQuiet(d)
+//@ func (*testdirectory.Directory).handleSearchGroups$1
+//@   requires hOK(w, r) && dirOK(d) && !held(&d.mu)
+//@   panics any
+//@   tags C15
+//@ loop 1
+//@   invariant held(&d.mu) && muQuiet(d)
+//@ loop 2
+//@   invariant held(&d.mu) && muQuiet(d)
+//@ loop 3
+//@   invariant held(&d.mu) && muQuiet(d)
+//@ func (*testdirectory.Directory).handleSearchGeneric$1
+//@   requires hOK(w, r) && dirOK(d) && !held(&d.mu)
+//@   panics any
+//@   tags C15
+//@ loop 1
+//@   invariant held(&d.mu) && muQuiet(d)
+//@ loop 2
+//@   invariant held(&d.mu) && muQuiet(d)
+//@ loop 3
+//@   invariant held(&d.mu) && muQuiet(d)
+//@ loop 4
+//@   invariant held(&d.mu) && muQuiet(d)
+//@ loop 5
+//@   invariant held(&d.mu) && muQuiet(d)
+//@ loop 6
+//@   invariant held(&d.mu) && muQuiet(d)
+//@ loop 7
+//@   invariant held(&d.mu) && muQuiet(d)
